@@ -452,6 +452,11 @@ def expected_events_of(expected_suites) -> List[tuple]:
 
 # ----------------------------------------------------------------------------- K2/K3: suites on disk, whole program
 
+# In the text of a generated suite file: stands for the absolute path of the directory the fixture is written to (known
+# at run time only) - `@ABS@/d/x.case` is an ABSOLUTE reference line
+ABS_MARK = '@ABS@'
+
+
 class Tree:
     """An abstract directory tree: rel path (posix, no leading slash) -> None for a directory, str for a file."""
 
@@ -482,6 +487,9 @@ class Tree:
                 os.makedirs(ap, exist_ok=True)
             else:
                 os.makedirs(os.path.dirname(ap), exist_ok=True)
+                if isinstance(c, str) and ABS_MARK in c:
+                    # an absolute reference: the absolute path of the directory the fixture is written to
+                    c = c.replace(ABS_MARK, root)
                 with open(ap, 'wb' if isinstance(c, bytes) else 'w') as f:
                     f.write(c)
 
@@ -549,9 +557,11 @@ def _glob(tree: Tree, base: str, pattern: str) -> List[str]:
 _WILD = ('*', '?', '[')
 
 
-def denoted_files(tree: Tree, suite_dir: str, line: str, for_suites: bool) -> List[str]:
+def denoted_files(tree: Tree, suite_dir: str, line: str, for_suites: bool, wild: Sequence[str] = _WILD) -> List[str]:
     """Reference semantics of one line of a [suites] / [cases] section (manual: "Each line consists of a single
     file name glob pattern", relative to the location of the suite file; a quoted name is taken literally).
+    A name that starts with ABS_MARK is an absolute path: it denotes the same files wherever the suite file is.
+    `wild`: the characters that make an unquoted name a pattern (a parameter only for the seeded oracle error).
     -> list of rel paths in the order they are to be processed; raises Invalid."""
     text = line.strip()
     if text.startswith('['):
@@ -574,7 +584,13 @@ def denoted_files(tree: Tree, suite_dir: str, line: str, for_suites: bool) -> Li
             raise ValueError('harness: line form outside the reference semantics: ' + line)
     if rest.strip():
         raise Invalid('superfluous argument')
-    if quoted or not any(w in name for w in _WILD):
+    if name.startswith(ABS_MARK):
+        # an absolute path: not relative to the location of the suite file
+        if name[len(ABS_MARK):len(ABS_MARK) + 1] != '/':
+            raise ValueError('harness: line form outside the reference semantics: ' + line)
+        name = name[len(ABS_MARK) + 1:]
+        suite_dir = ''
+    if quoted or not any(w in name for w in wild):
         cands = [_norm((suite_dir + '/' + name) if suite_dir else name)]
         if not tree.exists(cands[0]):
             raise Invalid('does not exist')
@@ -606,7 +622,7 @@ class SuiteSpec:
         return self.conf + suite_text(self.suites, self.cases, self.broken or '')
 
 
-def expected_run(tree: Tree, specs: Dict[str, SuiteSpec], root: str):
+def expected_run(tree: Tree, specs: Dict[str, SuiteSpec], root: str, wild: Sequence[str] = _WILD):
     """Reference oracle for a hierarchy.  -> None if the hierarchy is invalid, else the list of
     (suite rel path, [case rel paths]) in the order in which they must be processed (sub-suites first, listing
     order, glob matches sorted).  A suite file reached twice (incl. the root, incl. cycles), a reference to a
@@ -628,14 +644,14 @@ def expected_run(tree: Tree, specs: Dict[str, SuiteSpec], root: str):
         d = s.rsplit('/', 1)[0] if '/' in s else ''
         subs = []
         for line in spec.suites:
-            for p in denoted_files(tree, d, line, True):
+            for p in denoted_files(tree, d, line, True, wild):
                 if p in seen:
                     raise Invalid('double inclusion')
                 seen.add(p)
                 subs.append(p)
         cases = []
         for line in spec.cases:
-            cases += denoted_files(tree, d, line, False)
+            cases += denoted_files(tree, d, line, False, wild)
         for p in subs:
             visit(p)
         order.append((s, cases))
